@@ -123,7 +123,7 @@ static void scenario(const vh::Json& sc, vh::Out& out, vh::Rng& rng, const vh::A
         long off = p["off"].num(), len = p["len"].num(), ackoff = p["ackoff"].num();
         if (p["inc"].truth()) { c.isn[0] = pick_isn(rng); c.isn[1] = pick_isn(rng); }      // a new incarnation of the connection
         TCP tcp(c.e[1 - from].port, c.e[from].port);
-        uint8_t fl = 0; if (syn) fl |= TCP::SYN; if (ack) fl |= TCP::ACK; if (fin) fl |= TCP::FIN; if (rst) fl |= TCP::RST; tcp.flags(fl);
+        uint8_t fl = 0; if (syn) fl |= TCP::SYN; if (ack) fl |= TCP::ACK; if (fin) fl |= TCP::FIN; if (rst) fl |= TCP::RST; fl |= (uint8_t)p["x"].num();      /* further flag bits of the script (ECE, CWR, URG) */ tcp.flags(fl);
         tcp.seq(syn ? c.isn[from] : c.isn[from] + 1 + (uint32_t)off);
         tcp.ack_seq(syn && !ack ? 0 : c.isn[1 - from] + 1 + (uint32_t)ackoff);
         std::vector<uint8_t> data; for (long q = off; q < off + len; ++q) data.push_back(sbyte(c.name, from, q));
